@@ -284,106 +284,128 @@ def handshake (ra : Ra) (ph : Nat) (p : Pkt) : Ra × Res :=
             else ({ ra with md := ra.md || d.gi.denom.isSet, bal := bal', tph := ph, plan := some (alloc, true), nOpen := ra.nOpen + 1 }, .ok)
           | none => ({ ra with md := ra.md || d.gi.denom.isSet, bal := bal', tph := ph, nOpen := ra.nOpen + 1 }, .ok)
 
-def step (s : St) : Op → St × Res
-  | .create r g =>
-    -- the message's ValidateBasic (hotfix, genesis info) runs before the keeper looks the rollapp up
+def newRa (r : Nat) (g : GInfo) : Ra :=
+  { id := r, gi := g, launched := false, preLaunch := none, plan := none, linked := false,
+    chan := none, tph := 0, md := false, bal := [], nOpen := 0 }
+
+/-- `MsgCreateRollapp`: the message's ValidateBasic (hotfix, genesis info) runs before the keeper looks the rollapp up -/
+def stepCreate (s : St) (r : Nat) (g : Option GInfo) : St × Res :=
+  match g with
+  | some g0 =>
+    if g0.supply.isNone then (s, .panic)        -- nil InitialSupply.IsZero()
+    else if (hotfix g0).vb.isSome then (s, .err)
+    else if (getRa s r).isSome then (s, .err)
+    else ({ s with ras := s.ras ++ [newRa r (hotfix g0)] }, .ok)
+  | none =>
+    if (getRa s r).isSome then (s, .err)
+    else ({ s with ras := s.ras ++ [newRa r emptyGI] }, .ok)
+
+/-- `MsgUpdateRollappInformation` → `CheckAndUpdateRollappFields` (genesis-info part) -/
+def stepSetgi (s : St) (r : Nat) (owner : Bool) (g : Option GInfo) : St × Res :=
+  match getRa s r with
+  | none => (s, .err)
+  | some ra =>
     match g with
+    | none => if owner then (s, .ok) else (s, .err)
     | some g0 =>
-      if g0.supply.isNone then (s, .panic)        -- nil InitialSupply.IsZero()
-      else
-        let g1 := hotfix g0
-        if g1.vb.isSome then (s, .err)
-        else if (getRa s r).isSome then (s, .err)
-        else ({ s with ras := s.ras ++ [{ id := r, gi := g1, launched := false, preLaunch := none, plan := none, linked := false,
-                                            chan := none, tph := 0, md := false, bal := [], nOpen := 0 }] }, .ok)
-    | none =>
-      if (getRa s r).isSome then (s, .err)
-      else ({ s with ras := s.ras ++ [{ id := r, gi := emptyGI, launched := false, preLaunch := none, plan := none, linked := false,
-                                          chan := none, tph := 0, md := false, bal := [], nOpen := 0 }] }, .ok)
-  | .setgi r owner g =>
-    match getRa s r with
-    | none => (s, .err)
-    | some ra =>
       -- ValidateBasic of the message comes first
-      if (match g with | some g0 => g0.vb.isSome | none => false) then (s, .err)
+      if g0.vb.isSome then (s, .err)
       else if !owner then (s, .err)
-      else match g with
-        | none => (s, .ok)
-        | some g0 =>
-          if ra.gi.sealed then (s, .err)
-          else if g0.supply.isNone then (s, .panic)
-          else
-            let g1 := hotfix g0
-            if g1.vb.isSome then (s, .err)
-            else if ra.launched && !g1.sealed then (s, .err)
-            else (setRa s { ra with gi := g1 }, .ok)
-  | .force r gov g =>
+      else if ra.gi.sealed then (s, .err)
+      else if g0.supply.isNone then (s, .panic)
+      else if (hotfix g0).vb.isSome then (s, .err)
+      else if ra.launched && !(hotfix g0).sealed then (s, .err)
+      else (setRa s { ra with gi := hotfix g0 }, .ok)
+
+/-- `MsgForceGenesisInfoChange` (governance only) -/
+def stepForce (s : St) (r : Nat) (gov : Bool) (g : GInfo) : St × Res :=
+  match getRa s r with
+  | none => (s, .err)
+  | some ra =>
+    if !gov then (s, .err)
+    else if g.vb.isSome || !g.launchable then (s, .err)
+    else (setRa s { ra with gi := { g with sealed := true } }, .ok)
+
+/-- `MsgCreatePlan` (x/iro) as far as the rollapp is concerned: `SetIROPlanToRollapp` -/
+def stepPlan (s : St) (r : Nat) (owner : Bool) (alloc : Int) (dur : Nat) : St × Res :=
+  match getRa s r with
+  | none => (s, .err)
+  | some ra =>
+    if !owner then (s, .err)
+    else if decide (alloc ≤ 10 * 10 ^ 18) then (s, .err)       -- MinTokenAllocation (18 decimals)
+    else if ra.plan.isSome then (s, .err)
+    else match ra.gi.accounts.find? (·.addr == iroAddr) with
+      | none => (s, .err)
+      | some a =>
+        if a.amt != alloc then (s, .err)
+        else if ra.gi.denom.exp != 18 then (s, .err)
+        else if ra.launched || ra.gi.sealed || !ra.gi.iroReady then (s, .err)
+        else (setRa s { ra with gi := { ra.gi with sealed := true }, preLaunch := some (s.now + dur), plan := some (alloc, false) }, .ok)
+
+/-- first `MsgCreateSequencer` of a rollapp: pre-launch time, `SetRollappAsLaunched` -/
+def stepSeq (s : St) (r : Nat) : St × Res :=
+  match getRa s r with
+  | none => (s, .err)
+  | some ra =>
+    if ra.launched then (s, .ok)
+    else if (match ra.preLaunch with | some t => decide (s.now < t) | none => false) then (s, .err)
+    else if !ra.gi.launchable then (s, .err)
+    else (setRa s { ra with launched := true, gi := { ra.gi with sealed := true } }, .ok)
+
+/-- canonical client + first transfer channel (`HandleMsgChannelOpenAck`) -/
+def stepLink (s : St) (r : Nat) : St × Res :=
+  match getRa s r with
+  | none => (s, .err)
+  | some ra =>
+    if !ra.launched || ra.linked then (s, .err)
+    else
+      let s1 := setRa s { ra with linked := true, chan := some s.nextChan }
+      ({ s1 with chans := s1.chans ++ [(s.nextChan, .canon r)], nextChan := s.nextChan + 1 }, .ok)
+
+def stepLink2 (s : St) (r : Nat) : St × Res :=
+  match getRa s r with
+  | none => (s, .err)
+  | some ra =>
+    if !ra.linked then (s, .err)
+    else ({ s with chans := s.chans ++ [(s.nextChan, .second r)], nextChan := s.nextChan + 1 }, .ok)
+
+/-- `MsgTransfer` from the hub: `ICS4Wrapper.transferAllowed` -/
+def stepSend (s : St) (c : Nat) : St × Res :=
+  match s.chans.find? (·.1 == c) with
+  | none => (s, .err)
+  | some (_, .plain) => (s, .ok)
+  | some (_, .second _) => (s, .err)
+  | some (_, .canon r) =>
+    match getRa s r with
+    | none => (s, .err)
+    | some ra => if ra.tph == 0 then (s, .err) else (s, .ok)
+
+/-- `IBCModule.OnRecvPacket` -/
+def stepRecv (s : St) (c : Nat) (ph : Nat) (p : Pkt) : St × Res :=
+  match s.chans.find? (·.1 == c) with
+  | none => (s, .err)
+  | some (_, .plain) => (s, lowerPlain p)
+  | some (_, .second _) => (s, .rerr .notCanonical)
+  | some (_, .canon r) =>
     match getRa s r with
     | none => (s, .err)
     | some ra =>
-      if !gov then (s, .err)
-      else if g.vb.isSome || !g.launchable then (s, .err)
-      else (setRa s { ra with gi := { g with sealed := true } }, .ok)
-  | .plan r owner alloc dur =>
-    match getRa s r with
-    | none => (s, .err)
-    | some ra =>
-      if !owner then (s, .err)
-      else if decide (alloc ≤ 10 * 10 ^ 18) then (s, .err)       -- MinTokenAllocation (18 decimals)
-      else if ra.plan.isSome then (s, .err)
-      else match ra.gi.accounts.find? (·.addr == iroAddr) with
-        | none => (s, .err)
-        | some a =>
-          if a.amt != alloc then (s, .err)
-          else if ra.gi.denom.exp != 18 then (s, .err)
-          else if ra.launched || ra.gi.sealed || !ra.gi.iroReady then (s, .err)
-          else (setRa s { ra with gi := { ra.gi with sealed := true }, preLaunch := some (s.now + dur), plan := some (alloc, false) }, .ok)
+      if ra.tph != 0 then (s, lowerRollapp p)
+      else if (handshake ra ph p).2 == .ok then (setRa s (handshake ra ph p).1, .ok)
+      else (s, (handshake ra ph p).2)      -- error acknowledgement: ibc-go drops the cached context
+
+def step (s : St) : Op → St × Res
+  | .create r g => stepCreate s r g
+  | .setgi r owner g => stepSetgi s r owner g
+  | .force r gov g => stepForce s r gov g
+  | .plan r owner alloc dur => stepPlan s r owner alloc dur
   | .tick dt => ({ s with now := s.now + dt }, .ok)
-  | .seq r =>
-    match getRa s r with
-    | none => (s, .err)
-    | some ra =>
-      if ra.launched then (s, .ok)
-      else if (match ra.preLaunch with | some t => decide (s.now < t) | none => false) then (s, .err)
-      else if !ra.gi.launchable then (s, .err)
-      else (setRa s { ra with launched := true, gi := { ra.gi with sealed := true } }, .ok)
-  | .link r =>
-    match getRa s r with
-    | none => (s, .err)
-    | some ra =>
-      if !ra.launched || ra.linked then (s, .err)
-      else
-        let s1 := setRa s { ra with linked := true, chan := some s.nextChan }
-        ({ s1 with chans := s1.chans ++ [(s.nextChan, .canon r)], nextChan := s.nextChan + 1 }, .ok)
-  | .link2 r =>
-    match getRa s r with
-    | none => (s, .err)
-    | some ra =>
-      if !ra.linked then (s, .err)
-      else ({ s with chans := s.chans ++ [(s.nextChan, .second r)], nextChan := s.nextChan + 1 }, .ok)
+  | .seq r => stepSeq s r
+  | .link r => stepLink s r
+  | .link2 r => stepLink2 s r
   | .plainch => ({ s with chans := s.chans ++ [(s.nextChan, .plain)], nextChan := s.nextChan + 1 }, .ok)
-  | .send c =>
-    match s.chans.find? (·.1 == c) with
-    | none => (s, .err)
-    | some (_, .plain) => (s, .ok)
-    | some (_, .second _) => (s, .err)
-    | some (_, .canon r) =>
-      match getRa s r with
-      | none => (s, .err)
-      | some ra => if ra.tph == 0 then (s, .err) else (s, .ok)
-  | .recv c ph p =>
-    match s.chans.find? (·.1 == c) with
-    | none => (s, .err)
-    | some (_, .plain) => (s, lowerPlain p)
-    | some (_, .second _) => (s, .rerr .notCanonical)
-    | some (_, .canon r) =>
-      match getRa s r with
-      | none => (s, .err)
-      | some ra =>
-        if ra.tph != 0 then (s, lowerRollapp p)
-        else
-          let (ra', res) := handshake ra ph p
-          (setRa s ra', res)
+  | .send c => stepSend s c
+  | .recv c ph p => stepRecv s c ph p
 
 def run (s : St) (ops : List Op) : St := ops.foldl (fun s o => (step s o).1) s
 
